@@ -165,8 +165,8 @@ func H08s_Tags1() { tagsHarness(1, []int{maxTagLen()}, 4) }
 // H08s_Tags2: two fields (duplicate indexes become possible).
 func H08s_Tags2() { tagsHarness(2, []int{1, 2}, 2) }
 
-// H08s_Tags2_T: thorough: longer second tag, all field kinds.
-func H08s_Tags2_T() { tagsHarness(2, []int{2, 3}, 4) }
+// H08s_Tags2_T: thorough: two fields of all four field kinds.
+func H08s_Tags2_T() { tagsHarness(2, []int{1, 2}, 4) }
 
 // ---- (b) unsupported kinds and nestings, in every position ----
 
